@@ -220,12 +220,13 @@ class VSeq(Value):
     get(st, idx_term) -> Value.  `live` names a list VObj that the sequence reads live (CPython list iterators do).
     known_len: python int if the length is concrete (then loops unroll).
     """
-    __slots__ = ("n", "get", "known_len", "tag", "src", "flat", "flt")
+    __slots__ = ("n", "get", "known_len", "tag", "src", "flat", "flt", "effect")
 
     def __init__(self, n, get, known_len=None, tag="seq", src=None, flat=None):
         self.n, self.get, self.known_len, self.tag, self.src = n, get, known_len, tag, src
         self.flat = flat      # (inner_n, k, comp(s, j, c) -> Value): the sequence is the flattening of inner_n tuples of arity k
         self.flt = None       # (src, dst, generator) ghost maps of a filtered subsequence
+        self.effect = None    # effect(eng, st, i) -> outcomes: the i-th element is produced by a call with side effects (map(f, seq))
 
     def __repr__(self):
         return f"VSeq({self.tag},n={self.n})"
